@@ -59,7 +59,7 @@ def run(ctx):
             ren = lambda t: ('I', t[1].replace(EX + 'C1', EX + 'Caf%C3%A9').replace(EX + 'C0', EX + '100%25_C')) if t[0] == 'I' else t
             g = [(ren(s_), p_, ren(o_)) for s_, p_, o_ in g]
         # a fifth of the cases with disjunctions enabled (beyond the property's stated domain: the SHACL writer renders them as sh:or
-        # since the repair of the TypeError; compared implementation against implementation, the Lean SHACL model has no disjunctions)
+        # since the repair of the TypeError; compared implementation against implementation and against `Shacl.emit`, theorem `disjunction_alternatives`)
         cfg = gen.gen_cfg(rng, g, inst_prop=ip, presentation=False, allow_or=(i % 5 == 0))
         if i % 5 == 0:
             cfg['disable_or'] = False
@@ -81,8 +81,7 @@ def run(ctx):
     from shexer.shaper import Shaper
     lines = []
     for i, (g, cfg) in enumerate(cases):
-        if cfg['disable_or']:
-            lines += model.case_lines(g, cfg, 'shacl', "h%d" % i)
+        lines += model.case_lines(g, cfg, 'shacl', "h%d" % i)
     mres = model.run_driver(lines) if ctx.driver_ok else {}
     samples = []
     for i, (g, cfg) in enumerate(cases):
@@ -146,7 +145,7 @@ def run(ctx):
                 if not fid:
                     viol.append({"what": "sh:node object is not a declared sh:NodeShape", "object": o, **pipeline.case_json(g, cfg)})
         # correspondence with Shacl.emit
-        if mres and cfg['disable_or']:
+        if mres:
             mshapes = {}
             cur = None
             for ln in mres.get("h%d" % i, []):
@@ -155,7 +154,7 @@ def run(ctx):
                     cur = f[1]
                     mshapes[cur] = {'tc': f[2], 'props': collections.Counter()}
                 elif f[0] == 'PS':
-                    mshapes[cur]['props'][(f[1] == 'I', f[2], f[3], None if f[4] == '-' else int(f[4]) if f[4] != 'BAD' else 'BAD',
+                    mshapes[cur]['props'][(f[1] == 'I', f[2], ("or:" + ";".join(sorted(f[3][3:].split(";")))) if f[3].startswith("or:") else f[3], None if f[4] == '-' else int(f[4]) if f[4] != 'BAD' else 'BAD',
                                            None if f[5] == '-' else int(f[5]) if f[5] != 'BAD' else 'BAD')] += 1
             ishapes = {lab: collections.Counter((d['inverse'], d['path'], "|".join(sorted(d['restr'])) or "none", d['min'], d['max']) for d in s['props'])
                        for lab, s in got.items()}
@@ -165,8 +164,7 @@ def run(ctx):
         if len(samples) < 1 and len(g) < 9:
             samples.append({"nt": to_nt(g), "shacl": t_shacl})
     return base.std_result(ctx, cases, viol, dis, base.known_lines(kf, reproduced), stats, nontriv, samples,
-                           "random graphs and configurations (disable_or_statements at its default; in a fifth of the cases enabled: ShExC OR against sh:or, "
-                           "implementation only; one document of 900 classes, > 5000 ShExC lines); both serialisations of one Shaper parsed "
+                           "random graphs and configurations (disable_or_statements at its default; in a fifth of the cases enabled: ShExC OR against sh:or; one document of 900 classes, > 5000 ShExC lines); both serialisations of one Shaper parsed "
                            "(ShExC by the harness parser, SHACL Turtle by rdflib) and compared per shape as multisets of (direction, predicate, "
                            "restriction, min, max); non-trivial = some shape has >= 2 constraints", DEPS,
                            ["sheXer's vocabulary choices pinned by golden files (sh:dataType spelling, sh:property [ sh:inversePath p ]) are the encoding under test"])
